@@ -225,6 +225,9 @@ def bad_calls(snap: Snap, ctx) -> list[tuple[str, dict]]:
                 out.append(("mode/xy-in-ising", {"op": "declare_channel", "name": "zz_xy", "channel_id": cid}))
                 break
         out.append(("mode/magfield-in-ising", {"op": "set_magnetic_field", "b": [1.0, 0.0, 0.0]}))
+    if snap.flags["slm_dmm"] and not snap.flags["in_ising"] and not snap.flags["in_xy"] and not getattr(dev, "reusable_channels", False) and str(snap.flags["slm_dmm"]) in dev.dmm_channels:
+        # the DMM is reserved by a pending SLM mask: the refusal must not start Ising mode
+        out.append(("dmm/reserved-by-pending-slm", {"op": "config_detuning_map", "weights": {q: (1.0 if i == 0 else 0.0) for i, q in enumerate(qids)}, "dmm_id": str(snap.flags["slm_dmm"])}))
     out.append(("dmm/unknown-id", {"op": "config_detuning_map", "weights": {q: (1.0 if i == 0 else 0.0) for i, q in enumerate(qids)}, "dmm_id": "dmm_77"}))
     if snap.flags["slm_targets"]:
         out.append(("slm/twice", {"op": "config_slm_mask", "qubits": [qids[0]]}))
